@@ -1,0 +1,12 @@
+//go:build verif
+
+package oxia
+
+// Thin constructor/getter for the verification harness (C11): ResultAndChannel has unexported fields, the
+// harness only needs to push keys into a ResultHeap and read them back in pop order.
+
+func VerifNewResultAndChannel(key string) *ResultAndChannel {
+	return &ResultAndChannel{gr: GetResult{Key: key}}
+}
+
+func (r *ResultAndChannel) VerifKey() string { return r.gr.Key }
